@@ -14,7 +14,10 @@ out.append('Observations outside the 50 properties, made while replaying and lef
            'twice and of an indexed type reinterprets byte displacements as `int` indices (`Type_Vector::clone`, `Type_Indexed::clone`;\n'
            'tools/triage/c30_vector_count2_resized.c shows the first) - `MPI_Type_dup` is not among the constructors C30 quantifies over; the\n'
            '`tracing/vm` option aborts at platform load (`on_vm_creation` runs for every host) - not among the options C47 quantifies over;\n'
-           '`Topo_Cart::shift` tests `ndims_ < direction` where `<=` is meant (C33 is not applicable).\n')
+           '`Topo_Cart::shift` tests `ndims_ < direction` where `<=` is meant (C33 is not applicable); under `model-check/reduction:odpor` a program\n'
+           'drawing MC_random values makes the checker report a spurious `CRASH IN THE PROGRAM` whose path `2;1` replays cleanly, and dpor/sdpor/odpor\n'
+           'miss an assertion failure that reduction `none` finds after a `wait_any` (seeded/C41/demo.cpp and run.sh, seen by the seeding agent on the\n'
+           'unchanged tree): these are exploration-algorithm matters (C38, C40: not applicable) that no rule of C41 - the grammar of the path - can see.\n')
 out.append('### 7.1 Repaired (`fixed:` entries of known_findings.json)\n')
 out.append('| property | commit | what failed |')
 out.append('|---|---|---|')
